@@ -536,9 +536,9 @@ def template_cases(rng, limit):
             for p0 in ([G, rd(a), wr(w, 51), K, wr(w, 52), C], [G, rd(a), wr(w, 51), F, rd(a), K, rd(a), wr(w, 52), C]):
                 p1 = [G, wr(a, 61), C]
                 l0, l1 = len(p0), len(p1)
-                forced = [tuple(range(q)) + tuple(range(q + l1, l0 + l1)) for q in range(l0 + 1)]
+                forced = [tuple(range(q)) + tuple(range(q + l1, l0 + l1)) for q in range(2, l0)]     # B runs after A's read, before A's exit
                 others = [c for c in itertools.combinations(range(l0 + l1), l0) if c not in forced]
-                for pos in forced + rng.sample(others, min(len(others), max(2, limit // 4))):
+                for pos in forced + rng.sample(others, min(len(others), max(2, limit // 6))):
                     picks = [101] * (l0 + l1)
                     for p in pos: picks[p] = 100
                     cases.append({'sessOpt': [True, True], 'rows': rw, 'progs': [p0, p1], 'picks': picks})
